@@ -13,8 +13,8 @@ use vh::{run_main, Ctx, Local};
 fn pool() -> Vec<String> {
     let mut v = vec![];
     let spec: [(&str, &[&str]); 15] = [
-        ("a", &["", ":5", ":10", ":-1", ":x", ":", ":0", ":100"]),
-        ("b", &["", ":5", ":10", ":-5", ":9"]),
+        ("a", &["", ":5", ":10", ":-1", ":x", ":", ":0", ":100", ":-2147483648", ":2147483647"]),
+        ("b", &["", ":5", ":10", ":-5", ":9", ":-2147483647", ":2147483648"]),
         ("a-alias", &["", ":10"]),
         ("missing", &["", ":10"]),
         ("perm", &["", ":10"]),
